@@ -113,6 +113,14 @@ TOLERANCES = {
                    "KT*(1/24) H^3 max|f''''| + 5*ENV0_d*RHO^...; second derivative 12*rowtol/H^2 + KT*(3/8) H^2 max|f''''|"
                    " (Hall-Meyer constants; f'''' from 4th differences of the oracle at spacing H/2)",
     "KT": KT,
+    "direct-d1": "(1.5/dx)*(row/direct tolerance) + 1e-9, dx = 1e-16^(1/5): noise amplification of the 4th-order stencil",
+    "direct-d2": "(16/3/dx^2)*5*FD_NOISE*(1+|J|) + 1e-5, dx = 1e-16^(1/6) (the quad-tolerance-derived bound would be "
+                 "vacuous, 0.17*(1+|J|); measured envelope instead)",
+    "direct-decay": "closed form x K2(s)(1+e^-s) with K2(s) <= sqrt(pi/2s) e^-s (1+15/8s+105/128s^2), plus the quad tolerance",
+    "pot-*": "thermal sum of the per-integral tolerances times T^4/(2 pi^2); pot-sum/pot-abs-arg 1e-12 relative (rounding)",
+    "pot-continuity": "L = 1.5*max(|J'_oracle|, pi^2/12 near 0) + 0.05 (+ 5*ENV0_d with tables); noise 2*direct tolerance "
+                      "(direct) or 1e-13 (tables: the spline is exactly continuous)",
+    "jcw/cw-sum": "1e-13 / 1e-12 relative to the sum of |terms| (rounding)",
     "ENV0 (measured on the unchanged tree, x5 in use)": {f"{k[0]}@{k[1]:.4f}": v for k, v in ENV0.items()},
     "SMOOTH_ENV (measured, x5, only in the potential with tables)": SMOOTH_ENV,
     "FD_NOISE (measured, x5, only for direct-d2)": FD_NOISE,
@@ -896,13 +904,16 @@ def check_point_interp(case, v: Verdict, x0, X, V):
     prop = np.zeros((3, 2))
     if fn == "Jf" and x0 < -PI2 + MARGIN * H and X is not None:
         # rows around the stencil whose own deviation is reported by table-row: propagate, do not re-report
+        # Im: closed form (free) for +-12 rows; Re: quadrature for +-6 rows (largest reported Re deviation is
+        # 8.5e-5 and 2*8.5e-5*RHO^6 < 1e-7 is below the row tolerance)
         i0 = int(np.searchsorted(X, x0))
-        a, b = max(0, i0 - MARGIN), min(NROWS, i0 + MARGIN)
-        orow = oracle_vec(kind, X[a:b], 0)
-        for i in range(a, b):
-            for c in (0, 1):
-                dv = abs(V[i, c] - (orow[i - a].real, orow[i - a].imag)[c])
-                if dv > tol_quad(X[i], abs(orow[i - a]), c):
+        for i in range(max(0, i0 - MARGIN), min(NROWS, i0 + MARGIN)):
+            near = abs(i - i0) <= 6
+            jo = oracle(kind, X[i], 0) if near else complex(float("nan"), im_closed(kind, X[i], 0))
+            jscale = abs(jo) if near else abs(complex(V[i, 0], jo.imag))
+            for c in ((0, 1) if near else (1,)):
+                dv = abs(V[i, c] - (jo.real, jo.imag)[c])
+                if dv > tol_quad(X[i], jscale, c):
                     prop[:, c] += 2 * dv * RHO ** np.maximum(0.0, np.abs(X[i] - xs[1:4]) / H - 0.5)
         if np.any(prop > 0):
             v.label("interp:near-reported-row")
